@@ -7,6 +7,14 @@ PKGS = {
 }
 
 PROPS = {
+    "C17": {
+        "harnesses": [
+            {"pkg": "bscript", "name": "VH_C17_RoundTrip", "quick": {"params": {"L": 2}}, "thorough": {"params": {"L": 6}}},
+            {"pkg": "bscript", "name": "VH_C17_Layout", "quick": {"params": {"L": 2}}, "thorough": {"params": {"L": 6}}},
+            {"pkg": "bscript", "name": "VH_C17_Reject", "quick": {"params": {"L": 1}}, "thorough": {"params": {"L": 3}}},
+        ],
+        "assumptions": [],
+    },
     "C15": {
         "harnesses": [
             {"pkg": "bscript", "name": "VH_C15_RoundTrip"},
